@@ -181,7 +181,7 @@ impl Part for Requests {
         "requests"
     }
     fn cases(&self, tier: Tier) -> u32 {
-        tier.pick(40_000, 300_000)
+        tier.pick(80_000, 300_000)
     }
     fn strategy(&self, _tier: Tier) -> BoxedStrategy<Case> {
         let corpus = fixed_corpus();
